@@ -24,6 +24,7 @@ theorem bindFun_frame (r : Nat) (f : Fun) (s : State) :
   | nest fid v d =>
     exact ⟨slots_setParentIfNone _ _ _, conns_setParentIfNone _ _ _, nextRep_setParentIfNone _ _ _,
       err_setParentIfNone _ _ _⟩
+  | ownc fid c => exact ⟨rfl, rfl, rfl, rfl⟩
 
 @[slotg_simp] theorem slots_allocBind (c : Bool) (f : Fun) (s : State) : (allocBind c f s).slots = s.slots := by
   unfold allocBind; rw [(bindFun_frame _ _ _).1]; rfl
@@ -51,6 +52,7 @@ theorem reps_allocBind_self {s : State} (hI : Inv s) (c : Bool) (f : Fun) :
   | nest fid v d =>
     simp only [bindFun, reps_setParentIfNone, repOf_allocRep, reps_allocRep, if_true]
     rw [if_neg (orphan_next hI v)]
+  | ownc fid c => simp [bindFun, reps_allocRep]
 
 theorem reps_allocBind_other (c : Bool) (f : Fun) (s : State) (x : Nat) (hx : x ≠ s.nextRep) :
     (allocBind c f s).reps x = s.reps x ∨
@@ -75,6 +77,7 @@ theorem reps_allocBind_other (c : Bool) (f : Fun) (s : State) (x : Nat) (hx : x 
       | none => left; simp [hv]
       | some X => right; exact ⟨X, v, rfl, rfl, hv, by simp [hv]⟩
     · left; simp [hv]
+  | ownc fid c => left; simp [bindFun, reps_allocRep, hx]
 
 /-- an old representation after `allocBind`: unchanged except that it may have got the new one as parent -/
 theorem allocBind_old (c : Bool) (f : Fun) {s : State} {x : Nat} {X : Rep} (hX : s.reps x = some X)
@@ -124,12 +127,18 @@ theorem idle_allocBind {s : State} (hi : Idle s) (c : Bool) (f : Fun) : Idle (al
     intro t T hT
     simp only [bindFun, trks_setParentIfNone, trks_allocRep] at hT
     exact hi t T hT
+  | ownc fid c => exact hi
 
 /-- a functor that is stored in a representation may be instantiated again (`clone()`); a functor that binds a
     slot by value is copied by `allocNest` instead -/
 theorem funOk_of_inv {s : State} (h : Inv s) {r : Nat} {R : Rep} {f : Fun} (hR : s.reps r = some R)
     (hf : R.fn = some f) (hflat : ∀ fid v d, f ≠ .nest fid v d) : FunOk s f := by
-  refine ⟨?_, ?_, ?_, hflat⟩
+  refine ⟨?_, ?_, ?_, hflat, ?_⟩
+  rotate_left 3
+  · intro c hc
+    cases f <;> simp [Fun.ownsC] at hc
+    subst hc
+    exact h.ownCOk r R _ _ hR hf
   · intro t ht
     obtain ⟨T, hT, -⟩ := h.trkReg r R f t hR hf ht
     exact ⟨T, hT⟩
@@ -152,17 +161,17 @@ theorem funOk_of_inv {s : State} (h : Inv s) {r : Nat} {R : Rep} {f : Fun} (hR :
 theorem funOk_of_spec {s : State} (h : Inv s) {f : Fun} (hc : specCheck s f = none)
     (hnm : ∀ v, v ∈ f.names.1 → v < anonBase) (hflat : ∀ fid v d, f ≠ .nest fid v d) : FunOk s f := by
   cases f with
-  | fn fid => exact ⟨by simp [Fun.trk], by simp [Fun.ref], by simp [Fun.owns], hflat⟩
+  | fn fid => exact ⟨by simp [Fun.trk], by simp [Fun.ref], by simp [Fun.owns], hflat, by simp [Fun.ownsC]⟩
   | mem fid t =>
     simp only [specCheck, deadT] at hc
-    refine ⟨?_, by simp [Fun.ref], by simp [Fun.owns], hflat⟩
+    refine ⟨?_, by simp [Fun.ref], by simp [Fun.owns], hflat, by simp [Fun.ownsC]⟩
     intro t' ht'; simp [Fun.trk] at ht'; subst ht'
     cases hT : s.trks t with
     | none => simp [hT] at hc
     | some T => exact ⟨T, by first | rfl | exact hT⟩
   | sref fid v =>
     simp only [specCheck, deadS] at hc
-    refine ⟨by simp [Fun.trk], ?_, by simp [Fun.owns], hflat⟩
+    refine ⟨by simp [Fun.trk], ?_, by simp [Fun.owns], hflat, by simp [Fun.ownsC]⟩
     intro v' hv'; simp [Fun.ref] at hv'; subst hv'
     cases hV : s.slots v with
     | none => simp [hV] at hc
@@ -177,7 +186,7 @@ theorem funOk_of_spec {s : State} (h : Inv s) {f : Fun} (hc : specCheck s f = no
     | none => simp [hV] at hc
     | some V =>
       simp only [hV, Option.isNone_some, Bool.false_eq_true, if_false] at hc
-      refine ⟨?_, by simp [Fun.ref], ?_, hflat⟩
+      refine ⟨?_, by simp [Fun.ref], ?_, hflat, by simp [Fun.ownsC]⟩
       · intro t' ht'
         simp [Fun.trk] at ht'; subst ht'
         cases hT : s.trks t' with
@@ -191,6 +200,13 @@ theorem funOk_of_spec {s : State} (h : Inv s) {f : Fun} (hc : specCheck s f = no
         · by_cases hh : s.trks ‹Nat› = none <;> simp [hh] at hc
         · simp at hc
   | nest fid v d => exact absurd rfl (hflat _ _ _)
+  | ownc fid c =>
+    simp only [specCheck, deadC] at hc
+    refine ⟨by simp [Fun.trk], by simp [Fun.ref], by simp [Fun.owns], hflat, ?_⟩
+    intro c' hc'; simp [Fun.ownsC] at hc'; subst hc'
+    cases hx : s.conns c with
+    | none => simp [hx] at hc
+    | some p => exact ⟨p, by first | rfl | exact hx⟩
 
 /-! ### `Ext` -/
 
@@ -252,7 +268,7 @@ theorem inv_adopt {s : State} (h : Inv s) {n v : Nat} {N : Rep} (b : Bool) (hn :
   have hvr : ∀ r, repOf s v ≠ some r := by intro r hr; simp [repOf, hv] at hr
   refine { repAlive := ?_, repUniq := ?_, connReg := ?cr, cbsConn := ?cc, regUniq := ?_, cbsNodup := ?_,
            parentOk := ?_, trkReg := ?_, trkEnt := ?_, trkNodup := ?_, refOk := ?ro, ownOk := ?_, nestOk := ?_,
-           anonBound := ?_, repBound := ?_ }
+           anonBound := ?_, repBound := ?_, regHeld := ?_, ownCOk := ?_ }
   case ro =>
     apply refOk_transfer h
     · intro r R' hR'; exact ⟨R', hR', rfl⟩
@@ -554,7 +570,7 @@ theorem inv_storeNest {s : State} (h : Inv s) {n fid dd : Nat} {c : Bool}
     Inv (s.modRep n fun N => { N with fn := some (.nest fid (anonBase + n) dd) }) := by
   refine { repAlive := ?_, repUniq := ?_, connReg := ?_, cbsConn := ?_, regUniq := ?_, cbsNodup := ?_,
            parentOk := ?_, trkReg := ?_, trkEnt := ?_, trkNodup := ?_, refOk := ?ro, ownOk := ?_, nestOk := ?_,
-           anonBound := ?_, repBound := ?_ }
+           anonBound := ?_, repBound := ?_, regHeld := ?_, ownCOk := ?_ }
   case ro =>
     intro r R gid v hR hf
     rw [reps_modRep] at hR
